@@ -21,7 +21,7 @@ CHECKS = {
    text="Each of 35 byte-input helpers and 4 text-input variants is executed on every byte string of length 0..2 (0..3 thorough), alphabet strings to length 6/7, structured longer strings and the mutation neighbourhood of 12 valid encodings; hangs and heap blow-ups are caught by the worker watchdog and confirmed by single-case replay.",
    note="Element-typed getters are judged on decoder-deliverable lengths (MobileIdentity5GS >= 4 octets, DNN >= 1)."),
  "C15": dict(level="exploration", design="4/C15",
-   technique="exhaustive alphabet-string enumeration into the three parsers + 2-mutation neighbourhoods (totality); bounded exhaustive enumeration of rule / description values with a reference encoder written from figures 9.11.4.12/13 (round trip)",
+   technique="exhaustive alphabet-string enumeration into the three parsers + 2-mutation neighbourhoods (totality); bounded exhaustive enumeration of rule / description values — complete value spaces of all one- and two-octet fields included — with a reference encoder written from figures 9.11.4.12/13 (round trip); call histories, value reuse, serialiser hygiene",
    text="All byte strings up to length 4 (5) over a 32-value alphabet and the mutation neighbourhood of full-coverage encodings must parse without panic, unknown identifiers being errors; rule lists over all operations, flags, 0..15 filters and all ordered pairs of the 18 component types, and description lists over 0..63 parameters and all ordered pairs/triples of the 7 kinds must serialise to the reference bytes and parse back to equal values.",
    note="Trusted: the reference encoder in props/c15.go. Flow labels below 2^19 only."),
  "C16": dict(level="exploration", design="4/C16",
@@ -29,7 +29,7 @@ CHECKS = {
    text="Serialise/parse round trip of container lists, 'no invented contents' oracle on arbitrary bytes (every parsed unit must be literally in the input at the reference reader's offset), complete PSI bitmap space.",
    note="A trailing incomplete unit may be dropped silently (allowed by the statement)."),
  "C17": dict(level="exploration", design="4/C17",
-   technique="complete enumeration of every duration, AMBR value x unit x direction, quarter-hour zone x DST, daily and per-second time stamps, name lengths 0..64, against unit tables / BCD / GSM-7 reference decoders",
+   technique="complete enumeration of every duration, AMBR value x unit x direction, quarter-hour zone x DST, daily and per-second time stamps (also under different process-local zones and clock answers through a source-overlay seam), name lengths 0..64, against unit tables / BCD / GSM-7 reference decoders",
    text="All 1 116 001 + 11 161 durations, all 655 360 AMBR inputs, all zone/DST combinations in the stated domain, ~73 000 day boundaries and 1.7 M per-second instants, and names of every length with every septet value at every position (<= 17) are encoded by the library and decoded by reference decoders.",
    note="Trusted: refconv/misc.go (unit tables of TS 24.008 10.5.7.4/4a, semi-octet BCD, TS 23.038 packing)."),
  "C18": dict(level="exploration", design="4/C18",
@@ -81,8 +81,8 @@ CHECKS = {
    text="Every one of the 2^24 states of security.Count is constructed through the public API and every operation of the alphabet is executed from it on the implementation and on the reference model; Get/SQN/Overflow compared after each step. One-step agreement from every state gives all histories by induction; depth-3 sequences are enumerated as a redundancy.",
    note="Trusted: the 24-bit integer model in props/c11.go; Get exposes the complete abstract state."),
  "C20": dict(level="model_checking", design="4/C20",
-   technique="explicit-state BFS to fixpoint over reachable (live-set, scan-offset) states of the real IDGenerator, all operations in every state, live-set reference model + closure check",
-   text="All reachable states of every small allocator configuration are visited (fixpoint), every Allocate / Allocate_inRange(a,b) / FreeID(x) is executed in each of them on the implementation (fresh object + shortest-path replay) and checked against a live-set model; in every state repeated Allocate must return exactly the free ids.",
+   technique="explicit-state BFS to fixpoint over reachable (live-set, scan-offset) states of the real IDGenerator, all operations in every state, live-set reference model + closure check; the library's clock reads go through a source-overlay seam and short paths are repeated under an alphabet of clock answers",
+   text="All reachable states of every small allocator configuration are visited (fixpoint), every Allocate / Allocate_inRange(a,b) / FreeID(x) is executed in each of them on the implementation (fresh object + shortest-path replay) and checked against a live-set model; in every state repeated Allocate must return exactly the free ids. Every path of up to two operations on the ranges of 2..4 identifiers is repeated under 14 answers of the clock seam.",
    note="Trusted: live-set model; state key read by reflection is used for deduplication only. Ranges up to 10 ids (thorough), non-negative bounds, in-range arguments."),
 }
 
@@ -123,7 +123,7 @@ def main():
         ],
         "checks": checks,
         "not_applicable": na,
-        "notes": "All checks: ./check Cxx quick|thorough, evidence in /verif/evidence/Cxx.json, known findings in /verif/known_findings.jsonl, replay with ./check replay <file>.",
+        "notes": "All checks: ./check Cxx quick|thorough, evidence in /verif/evidence/Cxx.json, known findings in /verif/known_findings.jsonl, replay with ./check replay <file>. Besides the build-tag hooks in /repo, two source overlays are generated from /repo's working tree at check time and never written to it: cmd/vinstr (C19: scheduling points, sync shim) and cmd/vclockgen (all checks: the library's reads of the wall clock and process-local zone behind the virtual package vclock).",
     }
     json.dump(man, open(os.path.join(here, "MANIFEST.json"), "w"), indent=1)
     print("MANIFEST.json:", len(checks), "checks,", len(na), "not claimed")
